@@ -35,6 +35,7 @@ type Prog struct {
 	Family  string                                          // known-findings key prefix (class of program)
 	Tags    map[string]string
 	StrLen  map[string]int // length of symbolic-content string parameters
+	Files   map[string]string // when set: the program is the package main in this tree (dir main/), loaded with Load
 	Shared  bool           // may share one reference package with other programs (only funcs with unique names)
 	Imports []string
 	ref     *ssa.Package
@@ -90,6 +91,15 @@ func (c *Ctx) loadRefs(progs []*Prog) (kept []*Prog, rejected int) {
 		pkgOf[i] = fmt.Sprintf("verifref/b%dp%d", batch, i)
 		pd := filepath.Join(dir, fmt.Sprintf("b%dp%d", batch, i))
 		os.MkdirAll(pd, 0o755)
+		if p.Files != nil {
+			for name, content := range p.Files {
+				if strings.HasPrefix(name, "main/") {
+					os.WriteFile(filepath.Join(pd, strings.ReplaceAll(strings.TrimPrefix(name, "main/"), "/", "_")), []byte(content), 0o644)
+				}
+			}
+			os.WriteFile(filepath.Join(pd, "zz_mainfunc.go"), []byte("package main\n\nfunc main() {}\n"), 0o644)
+			continue
+		}
 		src := p.Src
 		if !strings.Contains(src, "func main()") {
 			src += "\n\nfunc main() {}\n"
@@ -385,7 +395,13 @@ func (c *Ctx) exploreProg(p *Prog, st *eqStats, solver string) *gosx.Report {
 		if id == "" {
 			id = p.ID
 		}
-		res, pan := ex.Call(ex.Func("verifEvalCall"), p.Src, "main."+p.Entry, uint64(len(p.Results)), gosx.MkSlice(goatArgs...), uint64(p.Mode))
+		var res gosx.Value
+		var pan *gosx.TargetPanic
+		if p.Files != nil {
+			res, pan = ex.Call(ex.Func("verifLoadCall"), gosx.MkStringMap(p.Files), "main", "main."+p.Entry, uint64(len(p.Results)), gosx.MkSlice(goatArgs...))
+		} else {
+			res, pan = ex.Call(ex.Func("verifEvalCall"), p.Src, "main."+p.Entry, uint64(len(p.Results)), gosx.MkSlice(goatArgs...), uint64(p.Mode))
+		}
 		if pan != nil {
 			ex.Assert(ex.TT().Bool(false), id+"/host-panic", "a Go panic escaped Eval/Call: "+ex.PanicText(pan), nil)
 			return
@@ -505,7 +521,7 @@ func (c *Ctx) runEquiv(progs []*Prog, solver string, agg *Agg, st *eqStats) {
 			return
 		}
 		c.AddViolation(Violation{Key: f.f.ID, What: fmt.Sprintf("%s; program %q inputs %s: goat=%v go=%v", f.f.Msg, oneLine(f.p.Src), modelString(f.f.Model), detail["goat"], detail["go"]),
-			Replay: map[string]interface{}{"kind": "prog", "src": f.p.Src, "entry": f.p.Entry, "params": f.p.Params, "results": f.p.Results, "model": f.f.Model, "mode": f.p.Mode, "strlen": f.p.StrLen, "assertion": f.f.ID}})
+			Replay: map[string]interface{}{"kind": "prog", "src": f.p.Src, "entry": f.p.Entry, "params": f.p.Params, "results": f.p.Results, "model": f.f.Model, "mode": f.p.Mode, "strlen": f.p.StrLen, "files": f.p.Files, "assertion": f.f.ID}})
 	})
 }
 
@@ -561,7 +577,7 @@ func (c *Ctx) replayProg(p *Prog, m gosx.Model) (bool, map[string]interface{}) {
 	}
 	// goat side
 	var gr nativeProgResp
-	req := map[string]interface{}{"Op": "prog", "Prog": map[string]interface{}{"Src": p.Src, "Entry": "main." + p.Entry, "NRes": len(p.Results), "Args": args, "Mode": p.Mode}}
+	req := map[string]interface{}{"Op": "prog", "Prog": map[string]interface{}{"Src": p.Src, "Files": p.Files, "Pkg": "main", "Entry": "main." + p.Entry, "NRes": len(p.Results), "Args": args, "Mode": p.Mode}}
 	out, err := c.Native.RunOnce(req, &gr, 60)
 	goat := ""
 	if err != nil {
@@ -666,7 +682,15 @@ func (c *Ctx) runGo386(p *Prog, lits []string) (string, error) {
 	if strings.Contains(src, "func main()") {
 		return "", fmt.Errorf("program defines main")
 	}
-	os.WriteFile(filepath.Join(dir, "prog.go"), []byte(src), 0o644)
+	if p.Files != nil {
+		for name, content := range p.Files {
+			if strings.HasPrefix(name, "main/") {
+				os.WriteFile(filepath.Join(dir, strings.ReplaceAll(strings.TrimPrefix(name, "main/"), "/", "_")), []byte(content), 0o644)
+			}
+		}
+	} else {
+		os.WriteFile(filepath.Join(dir, "prog.go"), []byte(src), 0o644)
+	}
 	os.WriteFile(filepath.Join(dir, "zz_main.go"), []byte(sb.String()), 0o644)
 	os.WriteFile(filepath.Join(dir, "go.mod"), []byte("module verifreplay\n\ngo 1.23\n"), 0o644)
 	bin := filepath.Join(dir, "prog386")
